@@ -102,6 +102,7 @@ class Contract:
         self.bind_calls = kw.pop("bind_calls", {})      # callee name -> ghost name bound to the call's result
         self.bind_witness = kw.pop("bind_witness", {})  # "callee.witness" -> ghost name bound to the callee's ghost witness
         self.local_types = kw.pop("local_types", {})   # local name -> annotation text, for un-annotated `x = []` grown in a loop
+        self.simple_loops = kw.pop("simple_loops", False)  # `for x in <sequence>:` loops without a spec: no invariant (locals / frames havocked with their sorts)
         self.reader_loops = kw.pop("reader_loops", False)  # `while <reader>:` loops without a spec: no invariant, measure len(<reader>._view)
         if kw:
             raise TypeError(f"unknown contract fields {list(kw)} for {key}")
@@ -137,6 +138,8 @@ class Engine:
         self.field_uf = {}
         self.notes = []
         self.assumptions = set()
+        self.int_fields_seen = []           # int / enum fields of symbolic message objects that were read
+        self.int_field_bound = None         # EXTRAS["int_field_bound"]: |field| < pow256(K) (assumption on message values)
 
     # ------------------------------------------------------------------ z3 helpers
     def func(self, name, *sorts):
@@ -158,6 +161,17 @@ class Engine:
         ne = self.func("str_nonempty", Str, B)
         for s, c in self.strlits.items():
             ax.append(ne(c) == z3.BoolVal(len(s) > 0))
+        if self.int_field_bound and self.int_fields_seen:
+            from .symexec import Path as _P
+            q = _P(); q.spec = True
+            bound = self.spec_apply("pow256", [VInt(int(self.int_field_bound))], q).t
+            seen = set()
+            for t in self.int_fields_seen:
+                if t.sexpr() in seen:
+                    continue
+                seen.add(t.sexpr())
+                ax.append(z3.And(t < bound, -t < bound))
+            ax.extend(a for k, a in self.axioms.items() if "pow256" in k and a not in ax)
         return ax
 
     def class_id(self, ci):
@@ -337,6 +351,12 @@ class Engine:
         if isinstance(a, VStr) and isinstance(b, VStr):
             if a.lit is not None and b.lit is not None:
                 return z3.BoolVal(a.lit == b.lit)
+            # chr(x) == "<one character>"  is  x == ord(character)   (chr is injective; a literal of another length never equals it)
+            for x, y in ((a, b), (b, a)):
+                if y.lit is not None and x.lit is None and z3.is_app(x.t) and x.t.decl().name() == "chr":
+                    if len(y.lit) != 1:
+                        return z3.BoolVal(False)
+                    return x.t.arg(0) == ord(y.lit)
             return self.str_term(a) == self.str_term(b)
         if isinstance(a, VTuple) and isinstance(b, VTuple):
             if len(a.items) != len(b.items):
@@ -420,6 +440,10 @@ class Engine:
             return VSym(fresh(Obj, name), None)
         if ty == "seqobj":
             return VList(t=fresh(SeqObj, name), elem="obj")
+        if ty == "seqstr":
+            return VList(t=fresh(SeqStr, name), elem="str")
+        if ty == "seqbytes":
+            return VList(t=fresh(SeqSeq, name), elem="bytes")
         if ty.startswith("t.Tuple[") or ty.startswith("Tuple["):
             inner = self.split_top(ty[ty.index("[") + 1:-1])
             return VTuple([self.fresh_of_type(x, p, module, f"{name}_{i}") for i, x in enumerate(inner)])
